@@ -245,6 +245,19 @@ impl<D: DictionaryAccess> StatefulTokenizer<D> {
     }
 }
 
+#[cfg(feature = "verif")]
+impl<D: DictionaryAccess> StatefulTokenizer<D> {
+    /// Lattice of the last analysis (read-only, for external verification harnesses)
+    pub fn verif_lattice(&self) -> &Lattice {
+        &self.lattice
+    }
+
+    /// Input buffer of the last analysis (read-only, for external verification harnesses)
+    pub fn verif_input(&self) -> &InputBuffer {
+        &self.input
+    }
+}
+
 // This structure is purely for Rust.
 // Otherwise splitting code into functions fails to compile with double borrow errors
 struct LatticeBuilder<'a> {
